@@ -30,6 +30,38 @@ class Log:
     def reset_case(self, case=None):
         self.trace = []
         self.case = case
+        self.session = _session_state(case)
+
+
+_HELD: list = []
+
+
+def _session_state(case):
+    """What an analyst's session holds between two library calls: builders that were subscripted but not called yet
+    (``do_x = P[X]`` ... later ``do_x(Y)``), a ``Sum[X]`` waiting for its body.  y0's algorithms use the module-level
+    builder ``P`` themselves, so any state such an object keeps would leak into their answers.  Chosen by a checksum of
+    the case (replay makes the same choice); harmless by definition on a tree where the builders are stateless."""
+    import sys
+
+    dsl = sys.modules.get("y0.dsl")
+    if dsl is None or not isinstance(case, dict):
+        return None
+    try:
+        text = repr(sorted((str(k), str(v)) for k, v in case.items()))
+    except Exception:  # noqa: BLE001
+        return None
+    if sum(map(ord, text)) % 5 != 3:
+        _HELD.clear()
+        return None
+    g = case.get("graph")
+    name = str(g["nodes"][0]) if isinstance(g, dict) and g.get("nodes") else "V0"
+    try:
+        v = dsl.Variable(name)
+        _HELD[:] = [dsl.P[v], dsl.Sum[v]]
+    except Exception:  # noqa: BLE001
+        return None
+    count("session:pending-subscripted-builders-held")
+    return {"pending": f"P[{name}], Sum[{name}]"}
 
 
 LOG = Log()
@@ -49,6 +81,7 @@ def violation(prop: str, monitor: str, detail: str, witness=None, mech: str | No
             "witness": witness,
             "mech": mech,
             "case": case if case is not None else LOG.case,
+            "session": getattr(LOG, "session", None),
         }
     )
 
